@@ -344,7 +344,7 @@ FILE_CONSTS = {
     "thorough": ['MaxRecs = 1 MaxLen = 6 Alphabet = {"A", "c", "N"} Widths = {1, 2, 3, 4, 6} Bufs = {1} Fixed = TRUE',
                  'MaxRecs = 2 MaxLen = 3 Alphabet = {"A", "n", "R"} Widths = {1, 2} Bufs = {1} Fixed = TRUE',
                  'MaxRecs = 3 MaxLen = 2 Alphabet = {"A", "N"} Widths = {1, 2} Bufs = {1} Fixed = TRUE',
-                 'MaxRecs = 1 MaxLen = 5 Alphabet = {"R", "y", "G", "k", "M", "b", "D", "h", "V", "S", "w"} Widths = {3} Bufs = {1} Fixed = TRUE'],
+                 'MaxRecs = 1 MaxLen = 3 Alphabet = {"R", "y", "G", "k", "M", "b", "D", "h", "V", "S", "w"} Widths = {2} Bufs = {1} Fixed = TRUE'],
 }
 MC_CONSTS = {
     "quick": [("index", 'MaxRecs = 2 MaxLen = 3 Alphabet = {"A", "N"} Widths = {1, 2, 3} Bufs = {1, 2, 3, 7} Fixed = TRUE',
